@@ -45,7 +45,7 @@ TStep ==
      \/ /\ e.ev = "modify" /\ Modify(e.mt) /\ Finish("", e)
      \/ /\ e.ev = "tick" /\ Tick /\ Finish("", e)
      \/ /\ e.ev = "delmod" /\ DeleteMod /\ Finish("", e)
-     \/ /\ e.ev = "oldgen" /\ OldGen /\ Finish("", e)
+     \/ /\ e.ev = "oldgen" /\ OtherGen(e.newer) /\ Finish("", e)
      \/ /\ e.ev = "begin" /\ Begin(e.p) /\ Finish("", e)
      \* probes: any order, any number; only the reported values are compared
      \/ /\ e.ev = "statsrc" /\ pc[e.p] \in Probing /\ Stutter /\ Finish(C(e.mt = src.mt, "statsrc-mt"), e)
